@@ -54,6 +54,31 @@ def delimited_jelly_hint(header: bytes) -> bool:
     )
 
 
+class _PushbackReader:
+    """
+    Serve bytes that were read ahead of time, then the rest of the stream.
+
+    `read(size)` returns fewer than `size` bytes only at the end of the stream,
+    which is what the length-prefixed frame parser requires.
+    """
+
+    def __init__(self, head: bytes, inp: IO[bytes]) -> None:
+        self._head = head
+        self._inp = inp
+
+    def read(self, size: int | None = -1) -> bytes:
+        if size is None or size < 0:
+            data, self._head = self._head + self._inp.read(), b""
+            return data
+        data, self._head = self._head[:size], self._head[size:]
+        while len(data) < size:
+            chunk = self._inp.read(size - len(data))
+            if not chunk:
+                break
+            data += chunk
+        return data
+
+
 def frame_iterator(inp: IO[bytes]) -> Generator[jelly.RdfStreamFrame]:
     while frame := parse_length_prefixed(jelly.RdfStreamFrame, inp):
         yield frame
@@ -83,7 +108,11 @@ def get_options_and_frames(
         # it to determine if it's delimited.
         # See also: https://github.com/Jelly-RDF/pyjelly/issues/298
         inp = io.BufferedReader(inp)  # type: ignore[arg-type, type-var, unused-ignore]
-        is_delimited = delimited_jelly_hint(inp.peek(3))
+        # `peek()` may return fewer than 3 bytes even though more are coming, so read
+        # the header for real and put it back in front of the stream.
+        header = _PushbackReader(b"", inp).read(3)
+        is_delimited = delimited_jelly_hint(header)
+        inp = _PushbackReader(header, inp)  # type: ignore[assignment]
     else:
         is_delimited = delimited_jelly_hint(bytes_read := inp.read(3))
         inp.seek(-len(bytes_read), os.SEEK_CUR)
